@@ -416,7 +416,7 @@ static void finish_case()
 }
 static void case_grid(uint64_t idx)
 {
-	bool sample = (idx % 2003) == 11;
+	bool sample = (idx % 7001) == 11;
 	transitions = 0; crosscopies = 0;
 	vf_fp_u64(0x16c00000 + idx);
 	if (idx < g_set()) {
@@ -458,7 +458,7 @@ static void case_grid(uint64_t idx)
 		case 2: op_copy_construct(h); break;
 		}
 		if (transitions || (op >= 1 && explen(h) > h->max)) vf_nontrivial();
-		if (sample || op == 2) vf_sample("grid %s: %s capacity %u holding %s", op == 0 ? "set_name(0,0)" : op == 1 ? "self-assignment" : "copy-construction", kindname[s], h->max, cdesc(cp).c_str());
+		if (sample) vf_sample("grid %s: %s capacity %u holding %s", op == 0 ? "set_name(0,0)" : op == 1 ? "self-assignment" : "copy-construction", kindname[s], h->max, cdesc(cp).c_str());
 		finish_case();
 	}
 }
